@@ -47,6 +47,7 @@ PROP = [  # (subject fragment, property ids, key that used to be reported)
  ("two enormous lines of tabs or zero-width characters aborted delta", 'C03', "signal|6 (memory allocation failed in align::Alignment::new: removed and added line of 2^20 tabs each; found by the huge-input items of the thorough tier)"),
  ("file header of a rename or copy kept git's quotes around a quoted path", 'C14', "c14:header-text:renamed / renamed_changed / copied (path quoted by git on the rename/copy lines shown with its quotes)"),
  ("blame line with a one-character author name was not recognised", 'C17', "c17:separator / c17:row-count (blame line whose author is a single character passed through unrendered)"),
+ ("hunk header that no hunk line follows was dropped", 'C02,C14', "c02:line-count:* on a diff cut right after a hunk header ('@@ ... @@' at end of input or before 'diff'/'commit'/'@@')"),
 ]
 log = subprocess.run(['git', '-C', '/repo', 'log', '--format=%H%x09%s', '--reverse'], stdout=subprocess.PIPE).stdout.decode().splitlines()
 fixes = [l.split('\t', 1) for l in log if '\tfix:' in l]
